@@ -348,8 +348,8 @@ Proved (direct and tunnelled routes, every manager state, every carried headers)
 default explicitly changes nothing — same pool id and pool key, same next manager state, same
 address, TLS names, CONNECT, target, `Host` and request bytes.  Scheme and host letter case never reach
 `route`: `parse_url` has lower-cased both (`C14_scheme_lower`, `C14_host_lower_partial`), and
-`C15_scheme_case_parse` below shows at the text level that the scheme's case does not influence the
-parse at all.
+`C15_scheme_case_parse` / `C15_host_case_parse_partial` below show at the text level that the
+scheme's case — and, for plain reg-names, the host's — does not influence the parse at all.
 -/
 theorem C15_case_default_port_same_pool_same_bytes (idna : Str → Option Str) (m : Mgr) (u : Url.Url)
     (carried : List (Str × Str)) (s : Str) (hs : u.scheme = some s) (hsch : s = http ∨ s = https)
@@ -376,6 +376,38 @@ theorem C15_scheme_case_parse (idna : Str → Option Str) (sc₁ sc₂ rest : St
 
 example : SchemeText (lit "hTTpS") := ⟨104, lit "TTpS", by decide, by decide, by decide⟩
 example : lower (lit "hTTpS") = lower (lit "https") := by decide
+
+/-
+Full statement: URL texts that differ only in the host's letter case parse (and are routed) alike.
+Proved for http/https URL texts `scheme://[userinfo@]HOST rest` whose HOST consists of letters, digits,
+`-`, `.`, `_`, `~` (`hostPlainC`) and is no dotted quad, `rest` being empty or starting with `:`, `/`,
+`?`, `#` or a backslash and containing no `@` before the authority ends.  Not covered: IPv6 literals
+(hex digits are case-insensitive too; their zone ids are not), hosts with percent-escapes, IDN hosts
+(`idna.encode` is an oracle).
+-/
+theorem C15_host_case_parse_partial (idna : Str → Option Str) (sc P au H₁ H₂ rest : Str) (hsc : SchemeText sc)
+    (hs : lower sc = http ∨ lower sc = https) (hP : UiPrefix P au) (hPa : ∀ c ∈ P, Url.authChar c = true)
+    (hH₁ : ∀ c ∈ H₁, hostPlainC c = true) (hH₂ : ∀ c ∈ H₂, hostPlainC c = true)
+    (hl : lower H₁ = lower H₂) (h4₁ : Url.ipv4Match H₁ = false) (h4₂ : Url.ipv4Match H₂ = false)
+    (hrest : rest = [] ∨ ∃ c t, rest = c :: t ∧ (c = 58 ∨ Url.authChar c = false))
+    (h64 : 64 ∉ rest.takeWhile Url.authChar) (m : Mgr) (carried : List (Str × Str)) :
+    Url.parseUrlWith idna (urlText sc P H₁ rest) = Url.parseUrlWith idna (urlText sc P H₂ rest) ∧
+    routeUrl idna m (urlText sc P H₁ rest) carried = routeUrl idna m (urlText sc P H₂ rest) carried := by
+  have := parseUrlWith_host_case idna sc P au H₁ H₂ rest hsc hs hP hPa hH₁ hH₂ hl h4₁ h4₂ hrest h64
+  refine ⟨this, ?_⟩
+  unfold routeUrl
+  rw [this]
+
+-- non-vacuity: "http://uSr@Example.COM:8080/a?b" vs "http://uSr@example.com:8080/a?b"
+example : urlText (lit "http") (lit "uSr@") (lit "Example.COM") (lit ":8080/a?b") =
+    lit "http://uSr@Example.COM:8080/a?b" := by decide
+example : UiPrefix (lit "uSr@") (lit "uSr") := UiPrefix.some (lit "uSr")
+example : (∀ c ∈ lit "uSr@", Url.authChar c = true) ∧ (∀ c ∈ lit "Example.COM", hostPlainC c = true) ∧
+    (∀ c ∈ lit "example.com", hostPlainC c = true) ∧ lower (lit "Example.COM") = lower (lit "example.com") ∧
+    Url.ipv4Match (lit "Example.COM") = false ∧ Url.ipv4Match (lit "example.com") = false ∧
+    64 ∉ (lit ":8080/a?b").takeWhile Url.authChar := by decide
+example : (Url.parseUrl (lit "http://uSr@Example.COM:8080/a?b")).toOption.map (·.host) =
+    some (some (lit "example.com")) := by decide +kernel
 
 -- non-vacuity: "https://example.com:443/p" and "https://example.com/p", directly and tunnelled
 example : (send1 none "https://example.com:443/p") = (send1 none "https://EXAMPLE.com/p") := by decide +kernel
